@@ -96,6 +96,7 @@ class CouplingTaint(TaintDomain):
     def __init__(self):
         self.net_calls = []
         self.scatters = []
+        self.merged = []  # every returned tensor that holds both identity and transformed content
 
     def src_arg(self, func, pname):
         if pname == "inputs":
@@ -122,7 +123,7 @@ class CouplingTaint(TaintDomain):
             ann.add("UINV" if method.startswith("inverse") else "U")
         if label.endswith(".transform_net"):
             self.net_calls.append((interp.frame.func, node, [set(all_ann(self, a)) for a in args], {k: set(all_ann(self, v)) for k, v in kwargs.items()}))
-            ann.add("PARAMS")
+            return {"PARAMS"}  # the parameters are a function of what the conditioner saw; content labels stop here
         return ann
 
     def xfer(self, interp, op, info, anns, recv, args, kwargs, node):
@@ -137,8 +138,9 @@ class CouplingTaint(TaintDomain):
                 return out
             out.discard("RAW")
             return out
-        if info.get("cat") == "like" and recv is not None and "IN" in recv.ann:
-            return {"OUT"}
+        if (info.get("cat") == "like" or op == "clone") and recv is not None and "IN" in recv.ann:
+            # the tensor the result is assembled in: both splits still have to be written into it
+            return {"OUT", "NEED:ID", "NEED:TR"}
         out.discard("RAW")
         out.discard("OUT")
         return out
@@ -148,6 +150,44 @@ class CouplingTaint(TaintDomain):
     def on_write(self, interp, how, target, value, node):
         if how == "subscript" and target.kind == "tensor":
             self.scatters.append((interp.frame.func, node, set(target.ann), set(all_ann(self, value)), node))
+
+    def store_result(self, interp, base, idx, val, st):
+        """Annotation of `base` after `base[idx] = val`: its old labels, the content of val, where
+        it was put; a store through an index buffer discharges the NEED:<split> obligation the
+        allocation created (join is union, so an obligation survives if ANY path skips the store)."""
+        add = self.store_labels(interp, base, idx, val, st)
+        out = set(base.ann) | add
+        if "PLACED:ID" in add:
+            out.discard("NEED:ID")
+        if "PLACED:TR" in add:
+            out.discard("NEED:TR")
+        return out
+
+    def store_labels(self, interp, base, idx, val, st):
+        """Labels a tensor acquires from `base[idx] = val`: the content of val plus where it was put."""
+        v = set(all_ann(self, val))
+        i = set(_index_ann(self, idx)) if idx is not None else set()
+        out = set(v) - {"RAW", "OUT", "NEED:ID", "NEED:TR"}
+        content_id = "ID" in v and "TR" not in v
+        content_tr = "TR" in v
+        if "IDX:ID" in i and "IDX:TR" not in i:
+            out.add("PLACED:ID" if content_id else "MISPLACED")
+            if content_id and "RAW" in v and not ({"U", "UINV", "PARAMS"} & v):
+                out.add("PLACED-RAW")
+        elif "IDX:TR" in i and "IDX:ID" not in i:
+            out.add("PLACED:TR" if content_tr else "MISPLACED")
+        elif content_id or content_tr:
+            out.add("UNINDEXED")
+        return out
+
+    def on_return(self, interp, frame, value, node):
+        vals = value.data if value is not None and value.kind == "tuple" else [value]
+        for v in vals:
+            if v is None or v.kind != "tensor":
+                continue
+            L = set(v.ann)
+            if {"ID", "TR"} <= L:
+                self.merged.append((frame.func, node, L))
 
 
 def _index_labels_of_store(dom, it, node):
@@ -189,49 +229,35 @@ def flow_rule(ctx):
                     res_cond.fail(Finding("CPL-COND", f.module, f.qualname, node, "inverse conditions on the identity split *before* undoing the unconditional transform; forward conditions on the pre-image, so the two directions disagree"))
                 else:
                     res_cond.ok("%s: conditioner args carry %s" % (tag, sorted(allann - {"RAW"})))
-            # --- CPL-SCAT / CPL-COPY
-            rets = [n for n in fi.node.body if isinstance(n, ast.Return)]
-            outname = None
-            if len(rets) == 1 and isinstance(rets[0].value, ast.Tuple) and rets[0].value.elts and isinstance(rets[0].value.elts[0], ast.Name):
-                outname = rets[0].value.elts[0].id
-            if outname is None:
-                res_scat.undecide(tag, "no single top-level `return <name>, <logabsdet>`")
-                continue
-            id_w = [s for s in dom.scatters if s[0] is fi and any(isinstance(t, ast.Subscript) and isinstance(t.value, ast.Name) and t.value.id == outname for t in s[4].targets)]
-            seen_idx = set()
-            for f, node, tann, vann, st in id_w:
-                idx = _store_index_labels(st)
-                if idx == "identity_features":
-                    seen_idx.add("ID")
-                    if "TR" in vann or "IN" in vann:
-                        res_scat.fail(Finding("CPL-SCAT", f.module, f.qualname, st, "the value scattered to the identity positions depends on the transformed split"))
-                    elif "ID" not in vann:
-                        res_scat.fail(Finding("CPL-SCAT", f.module, f.qualname, st, "the value scattered to the identity positions is not the identity split"))
-                    else:
-                        res_scat.ok("%s: identity split scattered with identity_features" % tag)
-                    if scenario.startswith("no"):
-                        if "RAW" in vann and not ({"U", "UINV", "PARAMS"} & vann):
-                            res_copy.ok("%s: identity features copied through unmodified" % tag)
-                        else:
-                            res_copy.fail(Finding("CPL-COPY", f.module, f.qualname, st, "identity features are not passed through bit-for-bit: the scattered value is computed from the gather (labels %s), not the gather itself" % sorted(vann)))
-                elif idx == "transform_features":
-                    seen_idx.add("TR")
-                    if "TR" not in vann:
-                        res_scat.fail(Finding("CPL-SCAT", f.module, f.qualname, st, "the value scattered to the transformed positions is not derived from the transformed split"))
-                    elif "PARAMS" not in vann:
-                        res_scat.fail(Finding("CPL-SCAT", f.module, f.qualname, st, "the transformed split is scattered back without having been transformed by the conditioner's parameters"))
-                    else:
-                        res_scat.ok("%s: transformed split scattered with transform_features" % tag)
+            # --- CPL-SCAT / CPL-COPY: every returned tensor that merges the two splits must have
+            # been assembled by scattering each split through the buffer it was gathered with
+            if not dom.merged:
+                res_scat.fail(Finding("CPL-SCAT", fi.module, fi.qualname, fi.node, "%s returns no tensor that contains both the identity and the transformed split" % direction, construct="merged outputs of %s" % direction))
+            seen_ret = set()
+            for f, node, L in dom.merged:
+                key = (f.qualname, getattr(node, "lineno", 0))
+                if key in seen_ret:
+                    continue
+                seen_ret.add(key)
+                probs = []
+                if "MISPLACED" in L:
+                    probs.append("a split is scattered through the other split's index buffer")
+                if "PLACED:ID" not in L:
+                    probs.append("the identity split is not placed through identity_features")
+                if "PLACED:TR" not in L:
+                    probs.append("the transformed split is not placed through transform_features")
+                for need, nm in (("NEED:ID", "identity_features"), ("NEED:TR", "transform_features")):
+                    if need in L:
+                        probs.append("on some path outputs[:, %s] is never written" % nm)
+                if probs:
+                    res_scat.fail(Finding("CPL-SCAT", f.module, f.qualname, node, "the merged outputs are assembled without scattering each split through the index buffer it was gathered with (%s): for masks with another layout features end up at the wrong positions" % "; ".join(probs)))
                 else:
-                    res_scat.fail(Finding("CPL-SCAT", f.module, f.qualname, st, "outputs are written through an index that is neither identity_features nor transform_features"))
-            for need, nm in (("ID", "identity_features"), ("TR", "transform_features")):
-                if need not in seen_idx:
-                    res_scat.fail(Finding("CPL-SCAT", fi.module, fi.qualname, fi.node, "outputs[:, %s] is never written in %s: those positions stay uninitialised" % (nm, direction), construct="scatter of %s in %s" % (nm, direction)))
-            # unconditional on every path: the two scatter statements are at the top level of the body
-            top = [st for st in fi.node.body if isinstance(st, ast.Assign) and any(isinstance(t, ast.Subscript) and isinstance(t.value, ast.Name) and t.value.id == outname for t in st.targets)]
-            if len(top) < 2:
-                res_scat.fail(Finding("CPL-SCAT", fi.module, fi.qualname, fi.node, "the two scatters are not executed on every path", construct="unconditional scatters in %s" % direction))
-            res_scat.ok("%s returns `%s`, the tensor both splits were scattered into" % (tag, outname))
+                    res_scat.ok("%s: %s returns outputs scattered through identity_features / transform_features" % (tag, f.qualname))
+                if scenario.startswith("no"):
+                    if "PLACED-RAW" in L and not probs:
+                        res_copy.ok("%s: identity features copied through unmodified (%s)" % (tag, f.qualname))
+                    elif not probs:
+                        res_copy.fail(Finding("CPL-COPY", f.module, f.qualname, node, "identity features are not passed through bit-for-bit: the value placed at the identity positions is computed from the gather, not the gather itself"))
     return [res_cond, res_copy, res_scat]
 
 
